@@ -100,14 +100,6 @@ theorem files2_split_sep_append (sep : Str) (hs : sep ≠ []) (r : Str) :
 
 /-! ### lines written one per EOL -/
 
-/-- **the condition on a line**: the first occurrence of the EOL in `line + EOL` is the one at the
-end of the line — Python: `(line + EOL).find(EOL) == len(line)`.  It fails when the line contains
-the EOL, and when an end of the line together with a beginning of the EOL spells the EOL
-(`'a|' + '||'`); what follows the EOL (the next line) plays no role. -/
-def lineOk (e : Bytes) : Bytes → Bool
-  | [] => true
-  | c :: l => !startsWith (c :: l ++ e) e && lineOk e l
-
 /-- `lineOk` is the statement about positions -/
 theorem files2_lineOk_iff (e l : Bytes) :
     lineOk e l = true ↔ ∀ k, k < l.length → ¬ e <+: (l ++ e).drop k := by
@@ -169,9 +161,6 @@ theorem files2_split_line (e : Bytes) (he : e ≠ []) (l rest : Bytes) (h : line
     rw [files2_split_nomatch e c _ hsw, ih h.2]
     rfl
 
-/-- the file content for a list of byte lines: every line followed by the EOL -/
-def unlinesB (e : Bytes) (ls : List Bytes) : Bytes := ls.flatMap (fun l => l ++ e)
-
 /-- **`split` of a file written one line per EOL**: the lines, and one empty piece after the last EOL -/
 theorem files2_split_unlines (e : Bytes) (he : e ≠ []) (ls : List Bytes) (h : ∀ l ∈ ls, lineOk e l = true) :
     split e (unlinesB e ls) = ls ++ [[]] := by
@@ -202,11 +191,6 @@ theorem files2_dropLastEmpty_snoc_ne (ls : List Bytes) (x : Bytes) (hx : x ≠ [
     | cons l2 ls => simp only [List.cons_append, dropLastEmpty] at ih ⊢; rw [ih]
 
 /-! ### `save_file` of a list of lines on the manual path, any kind of line -/
-
-/-- the start-of-stream mark goes in front of the first line -/
-def markFirst (bom : Bytes) : List Bytes → List Bytes
-  | [] => []
-  | l :: ls => (bom ++ l) :: ls
 
 theorem files2_unlinesB_markFirst (bom e : Bytes) (ls : List Bytes) :
     unlinesB e (markFirst bom ls) = (if ls.isEmpty then [] else bom) ++ unlinesB e ls := by
